@@ -27,6 +27,13 @@ FORBIDDEN_IN_UNIT = ['assume(', 'admit(', 'external_body', 'assume_specification
 ASSUMPTION_PAT = re.compile(r'(external_body|assume_specification|uninterp\s+spec\s+fn|proof\s+fn\s+axiom_\w+)')
 
 
+GLOBAL_ASSUMPTIONS = [
+    'machine floats are treated as mathematical reals (rounding, overflow to inf, NaN arithmetic are not modelled; finiteness is a ghost flag)',
+    'the extraction rules X1-X17 (DESIGN.md sections 2 and 13): iterator plumbing is replaced by index loops, the statements inside are the real text',
+    'Verus 0.2026.09.13 / Z3 and (where used) Kani 0.68 / CBMC 6.11 are sound',
+]
+
+
 class Undecided(Exception):
     pass
 
@@ -507,6 +514,102 @@ def write_evidence(path, pid, tier, seed, P, cov, t0, violations=0, undecided=Fa
         json.dump(ev, f, indent=1)
 
 
+_ITEM_RE = re.compile(r'^\s*(?:pub(?:\([a-z]+\))?\s+)?(?:open\s+|closed\s+|uninterp\s+|broadcast\s+)*(?:spec\s+|proof\s+|exec\s+|const\s+)*fn\s+([A-Za-z_0-9]+)')
+_TOK_RE = re.compile(r'[A-Za-z_][A-Za-z_0-9]*')
+
+
+def _items(text):
+    """(name, is_spec, text) of every fn item of a source text (an item ends where the next fn item starts, or at a line that
+    starts a non-fn item: coarse, over-approximating)"""
+    lines = text.splitlines()
+    starts = []
+    stop = re.compile(r'^\s*(pub\s+)?(struct|enum|impl|trait|macro_rules!|mod|use|const|type)\b|^\s*[a-z_]+!\(|^\s*// =====')
+    for i, l in enumerate(lines):
+        m = _ITEM_RE.match(l)
+        if m:
+            starts.append((i, m.group(1), bool(re.search(r'\b(spec|proof)\s+fn\b', l))))
+    out = []
+    for k, (i, name, is_spec) in enumerate(starts):
+        j = starts[k + 1][0] if k + 1 < len(starts) else len(lines)
+        for q in range(i + 1, j):
+            if stop.match(lines[q]):
+                j = q
+                break
+        out.append((name, is_spec, '\n'.join(lines[i:j])))
+    return out
+
+
+def reachable_assumptions(urs, pid, pre_assumptions):
+    """the assumed prelude items that the functions / corollaries tagged with the property can reach by name: executable
+    prelude items when a function of the property (or a unit function it calls) names them; specification items (uninterpreted
+    functions, axioms) transitively. Unnamed assumed items are always kept. Name-based, hence an over-approximation."""
+    prelude_text = open(os.path.join(VERIF, 'spec', 'prelude.rs')).read()
+    pre_items = _items(prelude_text)
+    unit_items = []
+    seeds = []
+    for ur in urs:
+        lines = ur.text.splitlines()
+        unit_items += _items('\n'.join(lines[ur.off:]))
+        for f in ur.fns:
+            if pid == 'C08' or any(pid in tags for (_, _, _, tags) in ur.clause_tags_in_fn(f)):
+                h = ur.hdr.get(f['id'], f['a0'])
+                seeds.append('\n'.join(lines[max(0, h - 1):f['a1'] + 1]))
+        for (ml, mc, mid, tags) in ur.markers:
+            if ml > ur.off and pid in tags and not ur.fn_at(ml):
+                seeds.append('\n'.join(lines[max(0, ml - 12):ml + 40]))
+    direct = set()
+    for t in seeds:
+        direct |= set(_TOK_RE.findall(t))
+    # unit items (extracted functions calling each other, the unit's own spec functions and lemmas): followed fully
+    by_unit = {}
+    for n, sp, t in unit_items:
+        by_unit.setdefault(n, []).append(t)
+    seen = set()
+    work = [n for n in by_unit if n in direct]
+    while work:
+        n = work.pop()
+        if n in seen:
+            continue
+        seen.add(n)
+        for t in by_unit[n]:
+            new = set(_TOK_RE.findall(t)) - direct
+            direct |= new
+            work += [m for m in new if m in by_unit and m not in seen]
+    # prelude: executable items only when named directly; specification items transitively
+    toks = set(direct)
+    spec_items = {}
+    exec_text = {}
+    for n, sp, t in pre_items:
+        (spec_items if sp else exec_text).setdefault(n, []).append(t)
+    for n in list(exec_text):
+        if n in direct:
+            for t in exec_text[n]:
+                toks |= set(_TOK_RE.findall(t))
+    seen = set()
+    work = [n for n in spec_items if n in toks]
+    while work:
+        n = work.pop()
+        if n in seen:
+            continue
+        seen.add(n)
+        for t in spec_items[n]:
+            new = set(_TOK_RE.findall(t)) - toks
+            toks |= new
+            work += [m for m in new if m in spec_items and m not in seen]
+    keep = []
+    for a in pre_assumptions:
+        head = a.split(' (prelude.rs')[0]
+        names = _TOK_RE.findall(head)
+        if head.startswith('external_body') or not names:
+            keep.append(a)
+        elif head.startswith('fn ') and names[-1] in exec_text and names[-1] not in spec_items:
+            if names[-1] in direct:
+                keep.append(a)
+        elif names[-1] in toks:
+            keep.append(a)
+    return keep
+
+
 def _main(pid, P, tier, repo, seed, scratch, ev_path, t0):
     import vpkani
     units = P.get('units', [])
@@ -648,7 +751,8 @@ def _main(pid, P, tier, repo, seed, scratch, ev_path, t0):
     cov = {
         'obligations': obligations, 'discharged': discharged,
         'checker_cmd': ' ; '.join(checker_cmds + kres.get('cmds', [])) or 'none',
-        'trusted_base': pre_assumptions + P.get('trusted_base', []),
+        'trusted_base': reachable_assumptions(urs, pid, pre_assumptions) + P.get('trusted_base', []) + GLOBAL_ASSUMPTIONS,
+        'prelude_assumed_items_total': len(pre_assumptions),
         'functions_under_contract': fn_list,
         'rewrites_applied': rewrites,
         'backend': 'verus 0.2026.09.13 / z3' + (' ; kani 0.68 / cbmc 6.11' if kres.get('harnesses') else ''),
